@@ -1,6 +1,8 @@
 package rules
 
 import (
+	"strings"
+
 	"golang.org/x/tools/go/ssa"
 
 	"verif/sa/internal/core"
@@ -178,4 +180,41 @@ func condMentions(c ssa.Value, v ssa.Value, depth int) bool {
 		return condMentions(x.X, v, depth+1)
 	}
 	return false
+}
+
+// returnFacts: the facts that hold for result #idx of a static call to a
+// function of this repository, i.e. the meet over all its returns of the
+// facts of the returned value there. Only facts that do not mention the
+// callee's own expressions survive.
+func (e *factEngine) returnFacts(call *ssa.Call, idx int, depth int) factSet {
+	callee := call.Call.StaticCallee()
+	if callee == nil || callee.Blocks == nil || !strings.HasPrefix(core.PkgPathOf(callee), core.ModPath) {
+		return factSet{}
+	}
+	var acc factSet
+	n := 0
+	core.Instrs(callee, func(ins ssa.Instruction) {
+		ret, ok := ins.(*ssa.Return)
+		if !ok || idx >= len(ret.Results) {
+			return
+		}
+		n++
+		f := e.at(ret.Results[idx], ret, depth+2)
+		g := factSet{}
+		for k := range f {
+			if strings.HasPrefix(k, "ltlen:") || strings.HasPrefix(k, "lelen:") {
+				continue
+			}
+			g[k] = true
+		}
+		if acc == nil {
+			acc = g
+		} else {
+			acc = meet(acc, g)
+		}
+	})
+	if n == 0 || acc == nil {
+		return factSet{}
+	}
+	return acc
 }
